@@ -1,6 +1,12 @@
 use std::sync::Arc;
+#[cfg(not(cached_verif))]
 use std::sync::atomic::{AtomicBool, Ordering};
+#[cfg(cached_verif)]
+use shuttle::sync::atomic::{AtomicBool, Ordering};
+#[cfg(not(cached_verif))]
 use std::thread;
+#[cfg(cached_verif)]
+use shuttle::thread;
 use std::time::{Duration, SystemTime, UNIX_EPOCH};
 
 use crossbeam_channel::tick;
